@@ -346,6 +346,9 @@ func runOnce(sc Scenario, seed string) (outcome, []sim.Event, bool) {
 		r.out.Status[string(id)] = st.St
 		if st.St == "err" {
 			kind := sim.ClassifyErr(st.Err, id, st.Culprits)
+			if os.Getenv("HADV_DEBUG") != "" {
+				fmt.Fprintf(os.Stderr, "scenario %d: %s ends with %v (culprits %v)\n", sc.ID, id, st.Err, st.Culprits)
+			}
 			r.out.Status[string(id)] = "err:" + kind
 			for _, c := range st.Culprits {
 				if kind == "detected" || kind == "proto" || kind == "self" {
